@@ -37,8 +37,33 @@ def n_positions(spec) -> int:
     return sum(1 for _ in walk(spec))
 
 
+# per-call `schema=` / `validators=` arguments (C01 quantifier): program -> (constraints, sentinel expr)
+CALL_ARGS = {
+    "int": ((("min", 0),), "7"),
+    "float": ((("exc_max", 5),), "2.0"),
+    "str_len": ((("max_len", 1),), "'x'"),
+    "list(int)": ((("max_items", 1),), "[7]"),
+    "opt(int)": ((("max", 3),), "1"),
+    "map(int)": ((("max_props", 1),), "{'k0': 7}"),
+    "S2": ((("min_props", 2),), "S2(7, 'x')"),
+    "nt": ((("max", 9),), "7"),
+}
+
+
+def call_validator_src(sentinel):
+    return (
+        "def call_validator(v):\n"
+        f"    if v == {sentinel}:\n"
+        "        raise ValidationError('call validator')\n"
+    )
+
+
 def jobs(prop: str, tier: str, seed: int):
     out = []
+    for pid, (cs, _) in CALL_ARGS.items():
+        b = dict(depth=2, width=2, strlen=2, budget=1)
+        for o in ({"call_schema": [list(c) for c in cs]}, {"call_validators": True}, {"call_schema": [list(c) for c in cs], "call_validators": True}):
+            out.append(dict(harness=prop, pool="data", pid=pid, opts=o, bounds=b, budget_s=30 if tier == "quick" else 120))
     for pid in pools.ids("data", tier):
         spec, _ = pools.get("data", pid)
         optsets = [{}]
@@ -116,10 +141,31 @@ class Inst:
         self.prop = job["harness"]
         self.prog = program_of(job)
         self.kw = api_kwargs(job)
+        o = job.get("opts", {})
+        self.call_cs = tuple(tuple(c) for c in o.get("call_schema", ()))
+        self.sentinel = None
+        if self.call_cs:
+            from apischema import schema as _schema
+
+            self.kw["schema"] = _schema(**dict(self.call_cs))
+        if o.get("call_validators"):
+            ns = self.prog.module.__dict__
+            exec(call_validator_src(CALL_ARGS[job["pid"]][1]), ns)
+            self.kw["validators"] = [ns["call_validator"]]
+            self.sentinel = eval(CALL_ARGS[job["pid"]][1], ns)
         self.method = deserialization_method(self.prog.tp, **self.kw)
         self.opts = ref_opts(job)
         self.bounds = bounds_of(job)
         self.table = message_kinds(self.prog)
+        self.table["call validator"] = "validator"
+        if self.call_cs:
+            from apischema import settings
+            from vf.specs import CONSTRAINT_KW
+
+            for k, v in self.call_cs:
+                tmpl = getattr(settings.errors, CONSTRAINT_KW[k])
+                if isinstance(tmpl, str):
+                    self.table[tmpl.format(v)] = "c:" + k
         self.VE = ValidationError
         self.functions = method_classes(self_of(self.method)) + [
             "apischema.deserialization.methods.validate_constraints",
@@ -145,7 +191,9 @@ class Inst:
         except Exception as e:  # a crash is C03's subject, not C01/C02's
             ctx.notes["tag:crash"] = True
             return None
-        errs, v = RefDeser(self.prog, self.opts, self.relax).run(d)
+        errs, v = RefDeser(self.prog, self.opts, self.relax).run(d, extra_cs=self.call_cs)
+        if not errs and self.sentinel is not None and same(v, self.sentinel):
+            errs = [((), "validator")]  # per-call validators run on the deserialized value
         accepted = real_errs is None
         ctx.notes["tag:accepted" if accepted else "tag:rejected"] = True
         if self.prop == "C01":
